@@ -60,7 +60,13 @@ type (
 		bankKeeper    types.BankKeeper
 		distrKeeper   types.DistrKeeper
 
-		hooks types.FundraisingHooks
+		// hooks is shared by every copy of the keeper (the module, the message server and the application each
+		// hold one by value), so that listeners registered through any of them are called by all of them.
+		hooks *hooksRef
+	}
+
+	hooksRef struct {
+		listeners types.FundraisingHooks
 	}
 )
 
@@ -89,6 +95,7 @@ func NewKeeper(
 		accountKeeper:  accountKeeper,
 		bankKeeper:     bankKeeper,
 		distrKeeper:    distrKeeper,
+		hooks:          &hooksRef{},
 		Params:         collections.NewItem(sb, types.ParamsKey, "params", codec.CollValue[types.Params](cdc)),
 		MatchedBidsLen: collections.NewMap(sb, types.MatchedBidsLenKey, "matchedBidsLen", collections.Uint64Key, collections.Int64Value),
 		AllowedBidder:  collections.NewMap(sb, types.AllowedBidderKey, "allowedBidder", collections.PairKeyCodec(collections.Uint64Key, sdk.LengthPrefixedAddressKey(sdk.AccAddressKey)), codec.CollValue[types.AllowedBidder](cdc)),
